@@ -16,6 +16,8 @@ for name in sorted(os.listdir(os.path.join(V, 'seeded'))):
     what = (what[:230] + '…') if len(what) > 231 else what
     needs = (needs[:170] + '…') if len(needs) > 171 else needs
     st = r.get('status', 'not run')
+    if meta.get('obsolete_after'):
+        st = 'no longer applicable: the code it changed was replaced by fix %s (caught on the HEAD it was written for)' % meta['obsolete_after']
     if st == 'caught':
         st = 'caught' + (' (tie broke, no failing input)' if r.get('no_failing_input') else ' (failing input)')
     rows.append('| %s | %s | %s | %s | %s |' % (name, meta.get('property'), what.replace('|', '/'), needs.replace('|', '/'), st))
